@@ -153,9 +153,9 @@ class HandlerState(execution.HandlerState):
         return cls(
             active=False,
             basetime=basetime,
-            started=parse_iso8601(__d.get('started')) or now,
-            stopped=parse_iso8601(__d.get('stopped')),
-            delayed=parse_iso8601(__d.get('delayed')),
+            started=_as_utc(parse_iso8601(__d.get('started'))) or now,
+            stopped=_as_utc(parse_iso8601(__d.get('stopped'))),
+            delayed=_as_utc(parse_iso8601(__d.get('delayed'))),
             purpose=__d.get('purpose') if __d.get('purpose') else None,
             retries=__d.get('retries') or 0,
             success=__d.get('success') or False,
@@ -480,6 +480,13 @@ def parse_iso8601(val: str) -> datetime.datetime:
 
 def parse_iso8601(val: str | None) -> datetime.datetime | None:
     return None if val is None else iso8601.parse_date(val, default_timezone=None)
+
+
+def _as_utc(val: datetime.datetime | None) -> datetime.datetime | None:
+    # The stored timestamps without an offset are UTC: this is what the older versions used to store
+    # (``datetime.utcnow().isoformat()``). Kept naive, they can be neither compared with nor subtracted
+    # from the TZ-aware "now": the handler would raise on every cycle, and never be executed again.
+    return val if val is None or val.tzinfo is not None else val.replace(tzinfo=datetime.timezone.utc)
 
 
 def _get_basetime() -> datetime.datetime:
